@@ -1,5 +1,12 @@
 (** Model of crates/vibesql-python-bindings/src/cursor.rs [Cursor::execute] as a state machine.
 
+    STATUS (working tree of /repo as of the last run): fixes/C30-cache-key-bound-text.patch is applied.
+    The code as it is NOW binds first and keys [stmt_cache] by the BOUND text: it is [execute_now] =
+    [execute_fixed process_now] at the end of this file.  [execute] (lookup by the UNBOUND text before
+    binding) is the code BEFORE that fix commit, kept as the record the "fixed:" finding refers to; the
+    description below is of that earlier control flow, [execute_fixed] differs from it only in the order
+    "bind, then look the bound text up".
+
     State of one cursor: [stmt_cache] (lru::LruCache<String, Statement>, capacity [cap] = 1000 in the
     code; most recently used entry first) and [last_result].  The database belongs to the connection.
 
@@ -24,7 +31,7 @@
     repairs of fixes/C30-*.patch (bind with the literal-aware [bind_spec] FIRST, key the cache by the
     bound text), [spec_call] = no cache at all.  Executable definitions only; no proofs. *)
 From Coq Require Import List ZArith Bool.
-From VibeSQL Require Import Lex.Placeholder.
+From VibeSQL Require Import Lex.Placeholder Lex.PlaceholderFixed.
 Import ListNotations.
 Open Scope Z_scope.
 
@@ -191,6 +198,11 @@ Section Cursor.
       literals replaced by literals of that call's values; no state besides the database *)
   Definition run_spec (d : D) (calls : list call) : list outcome * D * option res :=
     run_plain process_spec d None calls.
+
+  (** * the code as it is now: unrepresentable values refused, every '?' substituted, cache keyed by
+      the bound text *)
+  Definition execute_now := execute_fixed process_now.
+  Definition run_now := run_fixed process_now.
 
 End Cursor.
 
